@@ -1,6 +1,7 @@
 import BfeVerif.Common.Proto
 import BfeVerif.C07.Model
 import BfeVerif.C07.Render
+import BfeVerif.C07.Proxy
 /-!
   C07 driver.  op = one scenario line (see harness/cmd/c07/sim); result = the per-step trace.
 
@@ -76,9 +77,24 @@ def tagsOf (sc : Scenario) (steps : List IStep) (nd : Bool) : List String :=
   let overlap := steps.any fun s => s.isInv && s.evs.any fun e => e.snap.length ≥ 2 || e.snap.any fun p => p.2 ≥ 2
   (if nev ≥ 2 then ["nt"] else []) ++ (if fin then ["fwd-finish"] else []) ++ (if retry then ["retry"] else []) ++
   (if cross then ["cross"] else []) ++ (if overlap then ["overlap"] else []) ++ (if nd then ["nd"] else []) ++
-  (if sc.reqs.length ≥ 2 then ["multi"] else ["single"]) ++ (if nev == 0 then ["no-attempt"] else [])
+  (if sc.reqs.length ≥ 2 then ["multi"] else ["single"]) ++ (if nev == 0 then ["no-attempt"] else []) ++
+  (if sc.cfg.mode == 1 then ["wlc"] else if sc.cfg.mode == 2 then ["sticky"] else ["wrr"]) ++
+  (if sc.cfg.failNum > 0 then ["health"] else []) ++
+  (if invs.any fun s => s.evs.any fun e => e.pick != e.label then ["replaced"] else [])
+
+def runProxy (op impl : String) : Ans :=
+  match Px.parsePOp op with
+  | none => { model := "bad-op", verdict := "skip" }
+  | some p =>
+    let est := (impl.splitOn "est ").length - 1
+    { model := Px.runPOp p
+      verdict := Px.pVerdict p.scripts.length impl
+      tags := ["px"] ++ (if op.startsWith "px/w" then ["px-websocket"] else ["px-stream"]) ++
+              (if est ≥ 1 then ["nt", "px-est"] else []) ++ (if est ≥ 2 then ["px-multi"] else []) ++
+              (if (impl.splitOn "x").length > 1 then ["px-refused"] else []) }
 
 def run (op impl : String) : Ans :=
+  if op.startsWith "px/" then runProxy op impl else
   match parseOp op with
   | none => { model := "bad-op", verdict := "skip" }
   | some sc =>
